@@ -62,6 +62,9 @@ def gen_scenario(rng, prof):
     if rng.random() < prof["same_timer_name"]:
         timers = timers[:1]
     datas = ["=a", "=b", '="q"', "$"]
+    if rng.random() < (0.5 if prof["p_fault"] > 0 else 0.25):
+        # payloads on which the corruption regex ("[^"]+" -> "") is subtle: empty literals, odd numbers of quotes
+        datas = rng.sample(['="q"', '=""a"', '=""ab"c"', '="a""b"', '=x"y"z', '=""', '="a"b"'], 3) + ["$"]
     if prof["json_payloads"]:
         # JSON texts that json.dumps reproduces verbatim, with every falsy value (0, false, null, "", [], {}) among them
         datas = rng.sample(['="a"', "=1", '="q"', "=true", "=0", "=false", "=null", '=""', "=[]", "={}", "=[1]", "=[[]]", "=1.5", "=-3"], 4) + ["$", "$"]
